@@ -64,6 +64,8 @@ type Engine struct {
 	SampleQ     []string
 	initDone    map[*ssa.Package]bool
 	inInit      bool
+	SamplePaths int
+	Samples     []PathSample
 	InitPoison  []string
 	Hooks       Hooks
 }
@@ -71,6 +73,12 @@ type Engine struct {
 // Hooks let the driver observe path ends.
 type Hooks struct {
 	OnPathEnd func(e *Engine, st *State)
+}
+
+type PathSample struct {
+	Model  []NondetVal `json:"model"`
+	Labels []string    `json:"labels"`
+	Path   int         `json:"path"`
 }
 
 type Intrinsic func(c *Call) []*State
@@ -348,6 +356,9 @@ func (e *Engine) curPos(st *State) string {
 func (e *Engine) endPath(st *State, cut string) {
 	st.Ended = true
 	st.Cut = cut
+	if e.inInit {
+		return
+	}
 	if cut == "" {
 		atomic.AddInt64(&e.Paths, 1)
 	} else if cut == "infeasible" {
@@ -360,6 +371,23 @@ func (e *Engine) endPath(st *State, cut string) {
 	}
 	if e.Hooks.OnPathEnd != nil {
 		e.Hooks.OnPathEnd(e, st)
+	}
+	if cut == "" && e.SamplePaths > 0 {
+		e.mu.Lock()
+		take := len(e.Samples) < e.SamplePaths && st.ID%7 == len(e.Samples)%7
+		e.mu.Unlock()
+		if take {
+			sol := e.Pool.Get()
+			m, ok := e.Model(sol, st)
+			e.Pool.Put(sol)
+			if ok {
+				e.mu.Lock()
+				if len(e.Samples) < e.SamplePaths {
+					e.Samples = append(e.Samples, PathSample{Model: m, Labels: append([]string(nil), st.Labels...), Path: st.ID})
+				}
+				e.mu.Unlock()
+			}
+		}
 	}
 	if e.Cfg.MaxPaths > 0 && atomic.LoadInt64(&e.Paths)+atomic.LoadInt64(&e.PathsCut) > int64(e.Cfg.MaxPaths) {
 		e.abort("max paths exceeded")
@@ -379,6 +407,22 @@ func (e *Engine) check(sol *Solver, st *State, extra ...*Term) Result {
 	}
 	r, _ := sol.Check(as, nil)
 	atomic.AddInt64(&e.FeasQ[r], 1)
+	if r == Unsat && len(e.SampleQ) < 2 && !e.inInit {
+		e.mu.Lock()
+		if len(e.SampleQ) < 2 {
+			var b strings.Builder
+			b.WriteString("feasibility(unsat => branch pruned): ")
+			for _, a := range as {
+				b.WriteString("(assert " + a.SMT() + ") ")
+			}
+			q := b.String()
+			if len(q) > 1200 {
+				q = q[:1200] + "..."
+			}
+			e.SampleQ = append(e.SampleQ, q)
+		}
+		e.mu.Unlock()
+	}
 	return r
 }
 
@@ -1160,6 +1204,7 @@ func (e *Engine) recordViolation(st *State, sol *Solver, v *Violation) {
 		v.Events = append(v.Events, eventStr(ev))
 	}
 	v.Path = st.ID
+	v.Labels = append([]string(nil), st.Labels...)
 	e.mu.Lock()
 	e.Violations = append(e.Violations, v)
 	e.mu.Unlock()
@@ -1192,7 +1237,7 @@ func (e *Engine) Model(sol *Solver, st *State, extra ...*Term) ([]NondetVal, boo
 	var out []NondetVal
 	vi := 0
 	for _, n := range st.Nondets {
-		nv := NondetVal{Tag: n.Tag, Kind: n.Kind}
+		nv := NondetVal{Src: n.Src, Tag: n.Tag, Kind: n.Kind}
 		if n.Term == nil {
 			nv.Value = fmt.Sprint(n.Conc)
 		} else if n.Term.Const {
